@@ -100,6 +100,15 @@ TLoad ==
      /\ Report(l, "P:C05:load", IF e.err # "" \/ e.pan # "" THEN {1} ELSE {})
      /\ IF e.err = "" /\ e.pan = "" THEN LoadOwn ELSE inst' = NoInst
 
+TRender ==
+  /\ Ev("render")
+  /\ LET e == Trace[l] IN
+     /\ inst.live
+     /\ Report(l, "P:C19:render", RenderBad(inst, e))
+     /\ Report(l, "P:C19:roundtrip", IF inst.loaded /\ inst.lastrender # <<>> /\ inst.lastrender # <<e.text, e.lines>> THEN {1} ELSE {})
+     /\ LayerM => Report(l, "M:render", RenderDrift(inst, e))
+     /\ inst' = [inst EXCEPT !.lastrender = <<e.text, e.lines>>]
+
 TModes ==
   /\ Ev("modes")
   /\ inst' = NoInst
@@ -112,7 +121,7 @@ TModes ==
      /\ Report(l, "P:C13:onkeys", b.onkeys)
      /\ LayerM => Report(l, "M:modes", ModesDrift(e))
 
-TNext == UNCHANGED iters /\ (TNew \/ TTable \/ TTableErr \/ TStat \/ TObsK \/ TObsQ \/ TLoad \/ TModes)
+TNext == UNCHANGED iters /\ (TNew \/ TTable \/ TTableErr \/ TStat \/ TObsK \/ TObsQ \/ TLoad \/ TModes \/ TRender)
 
 \* every line consumed: l - 1 = Len(Trace) in the last state
 Accepted == TLCGet("stats").diameter - 1 = Len(Trace)
